@@ -856,3 +856,40 @@ func semKeyValues(rel, fn, leanName string) func() string {
 			rel, fn, leanName, strings.Join(rows, ", "))
 	}
 }
+
+// semAssignReach: the condition (restricted to the conjuncts mentioning `only`) under which the unique assignment whose
+// canonical, space-free source contains every marker is executed.
+func semAssignReach(rel, fn string, markers, only []string, leanName, params string, sp Spec) func() string {
+	return func() string {
+		v := canonOf(rel, fn)
+		var hits []canonAssign
+		for _, a := range v.assigns {
+			var parts []string
+			for _, r := range a.rhs {
+				parts = append(parts, norm(src(r)))
+			}
+			if containsAll("="+strings.Join(parts, ","), markers) {
+				hits = append(hits, a)
+			}
+		}
+		if len(hits) != 1 {
+			panic(bail{fmt.Sprintf("%s: expected exactly one assignment matching %v in %s, found %d", rel, markers, fn, len(hits))})
+		}
+		t := &tr{sp: sp}
+		var parts []string
+		for _, c := range hits[0].pc {
+			cs := norm(src(c))
+			for _, m := range only {
+				if strings.Contains(cs, norm(m)) {
+					parts = append(parts, t.expr(c))
+					break
+				}
+			}
+		}
+		body := "true"
+		if len(parts) > 0 {
+			body = "(" + strings.Join(parts, " && ") + ")"
+		}
+		return fmt.Sprintf("/-- generated from %s func %s: the condition under which the assignment matching %v is executed -/\ndef %s %s : Bool :=\n  %s\n", rel, fn, markers, leanName, params, body)
+	}
+}
